@@ -386,8 +386,10 @@ def c01(tier, seed):
     # finished-first joins under ASan with the joiner held right after it has handed the finished fiber back
     for sp in ("SCHEDULED", "JOIN_CLAIMED"):
         k += 1
-        runs.append(fb("h_join", "asan", "join", seed, k, 4, mode="stall", stall_point=sp, stall_every=3, stall_us_lo=50, stall_us_hi=1500,
-                       trials=40 if q else 300, drivers=8, livelock_prop="C01"))
+        for thr in ((4, 8) if q else (3, 4, 8, 16)):
+            k += 1
+            runs.append(fb("h_join", "asan", "join", seed, k, thr, mode="stall", stall_point=sp, stall_every=2, stall_us_lo=50, stall_us_hi=1500,
+                           trials=200 if q else 800, drivers=8, scenario=0, livelock_prop="C01"))
     return dict(runs=runs,
                 rule="a case = one seeded random program: 8..120 worker fibers each running 10..60 random actions from a 15-entry menu (yield, mutex, "
                 "semaphore post/wait, rwlock, cond ticket, multi-channel, bounded/unbounded channel sends to single receivers, create+join, "
